@@ -224,6 +224,15 @@ func (r *e1Run) run() {
 				changed[o.Fn] = true
 			}
 		}
+		// a non-negativity post-condition that only fails for lack of a precondition
+		for _, fn := range r.scope {
+			if dirty != nil && !dirty[fn] {
+				continue
+			}
+			if r.tryPresForPosts(fn) {
+				changed[fn] = true
+			}
+		}
 		if len(changed) == 0 {
 			break
 		}
@@ -369,6 +378,82 @@ func (r *e1Run) tryPres(o *e1Obl) bool {
 		}
 	}
 	return any
+}
+
+// tryPresForPosts adopts parameter preconditions under which a dropped
+// "result ≥ 0" post-condition of fn holds at every return.
+func (r *e1Run) tryPresForPosts(fn *ssa.Function) bool {
+	ct := r.cs.cts[fn]
+	fa := r.A.fa(fn)
+	adopted := false
+	for _, p := range ct.Posts {
+		if !p.Dead || p.Kind != "ret>=0" || p.Cond {
+			continue
+		}
+		var cands []*Pre
+		var lins []*Lin
+		for _, pre := range ct.Pres {
+			if pre.Adopted || pre.Kind != "param>=0" {
+				continue
+			}
+			if l := r.preLin(fa, pre); l != nil {
+				cands = append(cands, pre)
+				lins = append(lins, l)
+			}
+		}
+		if len(cands) == 0 {
+			continue
+		}
+		holds := func(use []bool) bool {
+			// temporary adoption: the invariants of fn are inferred under the candidate preconditions
+			for i, u := range use {
+				cands[i].Adopted = u
+			}
+			r.A.dropFA(fn)
+			fa2 := r.A.fa(fn)
+			defer func() {
+				for i := range use {
+					cands[i].Adopted = false
+				}
+				r.A.dropFA(fn)
+			}()
+			for _, ret := range returnsOf(fn) {
+				g, f, ok := p.formula(ct, fa2.calleeEnv(ret))
+				if !ok {
+					return false
+				}
+				for _, goal := range f {
+					if !fa2.prove(goal, ret.Block(), rootCtx.with(g, nil)) {
+						return false
+					}
+				}
+			}
+			return true
+		}
+		use := make([]bool, len(cands))
+		for i := range use {
+			use[i] = true
+		}
+		if !holds(use) {
+			continue
+		}
+		for i := range use {
+			use[i] = false
+			if !holds(use) {
+				use[i] = true
+			}
+		}
+		for i, u := range use {
+			if u {
+				cands[i].Adopted = true
+				adopted = true
+				if debugContracts {
+					fmt.Printf("ADOPT %s: %s for post-condition %s\n", shortName(fn), cands[i].String(fn), p.String())
+				}
+			}
+		}
+	}
+	return adopted
 }
 
 func (r *e1Run) add(o *e1Obl) { r.obls = append(r.obls, o) }
